@@ -11,7 +11,7 @@ import (
 func init() {
 	regSpec(scen.Criteria)
 	Registry["C11"] = func(tier string) int {
-		return engineA("C11", tier, []scen.Spec{scen.Criteria(), scen.Basket()},
+		return engineA("C11", tier, []scen.Spec{scen.OddGenesis(), scen.Criteria(), scen.Basket()},
 			func() []explore.Monitor { return []explore.Monitor{&mon.C11{}} },
 			budget(tier, 150*time.Second, 15*time.Minute),
 			"C11 alphabet bound: single put/take amounts below 34 significant digits (larger ones are refused by the exact conversion, DESIGN §12)")
